@@ -69,56 +69,776 @@ Lemma InvC_init c : InvC c init.
 Proof. unfold InvC, init; cbn. repeat split; auto; try lia; intros; discriminate. Qed.
 
 Ltac fin :=
-  unfold InvC, at_send, closed_spec, armed_spec, cnt, set_cpc, set_gpc, set_closed, set_cancelled, set_i, set_armed,
-    set_rclosed, do_tick, take_tick, do_send, do_recv in *;
+  subst; cbv beta iota;
+  unfold InvC, at_send, closed_spec, armed_spec, cnt in *;
   cbn [cpc gpc chanq closed cancelled i tmp tickbuf armed now sent recvd rclosed sac rac cap count
-       v_countdrop v_norecheck v_blocksend v_noclose1] in *;
+       v_countdrop v_norecheck v_blocksend v_noclose1 andb negb
+       set_cpc set_gpc set_closed set_cancelled set_i set_armed set_rclosed do_tick take_tick do_send do_recv] in *;
   repeat rewrite app_length in *; cbn [length] in *;
   repeat match goal with
          | |- _ /\ _ => split
          | |- True => exact I
          end;
-  try assumption; try reflexivity; try lia; try (rewrite <- app_assoc; reflexivity);
-  try solve [intuition (try lia; try congruence)].
+  try first
+    [ assumption | reflexivity | lia | (rewrite <- app_assoc; reflexivity) | discriminate | (intros; discriminate)
+    | tauto | (left; split; [reflexivity | lia]) | (right; lia) | (left; lia) | (left; reflexivity) | (right; reflexivity)
+    | solve [intuition (try lia; try congruence)] ].
+
+Ltac start_step c s Hwf HI :=
+  destruct c as [cap0 count0 f1 f2 f3 f4];
+  unfold wf in Hwf; cbn [cap count v_countdrop v_norecheck v_blocksend v_noclose1] in Hwf;
+  destruct Hwf as (Hcap & Hcount & -> & -> & -> & ->);
+  destruct s as [cpc0 gpc0 q cl ca i0 tmp0 tb ar nw se re rc sa ra];
+  unfold InvC in HI; cbn [cpc gpc chanq closed cancelled i tmp tickbuf armed now sent recvd rclosed sac rac cap count] in HI;
+  destruct HI as (H1 & H2 & H3 & H4 & H5 & H6 & H7 & H8 & H9).
+
+Definition post (c : cfg) (P : st -> Prop) (r : option (st * out)) : Prop :=
+  match r with Some (s', _) => P s' | None => True end.
+
+Ltac stp := unfold step, post, cnt;
+  cbn [cpc gpc chanq closed cancelled i tmp tickbuf armed now sent recvd rclosed sac rac cap count
+       v_countdrop v_norecheck v_blocksend v_noclose1 andb negb].
+
+Lemma call_InvC c s : wf c -> InvC c s -> post c (InvC c) (step c s LCall).
+Proof.
+  intros Hwf HI. start_step c s Hwf HI. stp.
+  destruct cpc0; cbv beta iota.
+  - destruct H3 as (H3a & ->). destruct ca; fin.
+  - destruct H3 as (H3a & ->).
+    destruct (Nat.ltb_spec (length q) cap0); [|exact I].
+    destruct re; destruct q; subst; try discriminate. destruct ca; fin.
+  - destruct H3 as (H3a & H3b & ->).
+    destruct (Nat.eqb_spec (count0 - 1) 0); destruct ca; fin.
+  - exact I.
+Qed.
+
+Lemma prod_InvC c s pd : wf c -> InvC c s -> post c (InvC c) (step c s (LProd pd)).
+Proof.
+  intros Hwf HI. start_step c s Hwf HI. stp.
+  destruct gpc0; cbv beta iota; try exact I;
+    (destruct cpc0; [destruct H3 as (_ & H3); discriminate | destruct H3 as (_ & H3); discriminate
+                    | destruct H3 as (_ & _ & H3); discriminate | ]).
+  - destruct ca; fin.
+  - destruct (Nat.ltb_spec i0 (count0 - 1)); destruct ca; fin.
+  - destruct ca; destruct tb as [t|]; try destruct pd; fin.
+  - destruct ca; fin.
+  - destruct (Nat.ltb_spec (length q) cap0); destruct ca; fin.
+  - destruct ca; fin.
+  - destruct ca; fin.
+Qed.
+
+Lemma tick_InvC c s d : wf c -> InvC c s -> post c (InvC c) (step c s (LTick d)).
+Proof.
+  intros Hwf HI. start_step c s Hwf HI. stp.
+  destruct ar; [|exact I]. destruct ca; fin.
+Qed.
+
+Lemma cancel_InvC c s : wf c -> InvC c s -> post c (InvC c) (step c s LCancel).
+Proof.
+  intros Hwf HI. start_step c s Hwf HI. stp.
+  destruct ca; [exact I|].
+  destruct cpc0; destruct gpc0; fin.
+Qed.
+
+Lemma recv_InvC c s : wf c -> InvC c s -> post c (InvC c) (step c s LRecv).
+Proof.
+  intros Hwf HI. start_step c s Hwf HI. stp.
+  destruct cpc0; try exact I. destruct rc; try exact I.
+  destruct q as [|v rest].
+  - destruct cl; [|exact I]. destruct ca; fin.
+  - destruct ca; destruct gpc0; fin.
+Qed.
 
 Lemma step_InvC c s l s' o : wf c -> InvC c s -> step c s l = Some (s', o) -> InvC c s'.
 Proof.
   intros Hwf HI Hs.
-  destruct c as [cap0 count0 f1 f2 f3 f4].
-  unfold wf in Hwf; cbn in Hwf. destruct Hwf as (Hcap & Hcount & -> & -> & -> & ->).
-  destruct s as [cpc0 gpc0 q cl ca i0 tmp0 tb ar nw se re rc sa ra].
-  unfold InvC in HI; cbn [cpc gpc chanq closed cancelled i tmp tickbuf armed now sent recvd rclosed sac rac cap count] in HI.
-  destruct HI as (H1 & H2 & H3 & H4 & H5 & H6 & H7 & H8 & H9).
-  destruct l; cbn in Hs.
-  - (* LCall *)
-    destruct cpc0.
-    + destruct H3 as (H3a & ->). destruct ca; inversion Hs; subst; clear Hs; fin.
-    + destruct H3 as (H3a & ->).
-      destruct (Nat.ltb_spec (length q) cap0); inversion Hs; subst; clear Hs.
-      destruct re; destruct q; try discriminate. destruct ca; fin.
-    + destruct H3 as (H3a & H3b & ->). unfold cnt in Hs; cbn in Hs.
-      destruct (Nat.eqb_spec (count0 - 1) 0); inversion Hs; subst; clear Hs; destruct ca; fin.
-    + discriminate.
-  - (* LProd *)
-    destruct gpc0; try discriminate;
-      (destruct cpc0; [destruct H3 as (_ & H3); discriminate | destruct H3 as (_ & H3); discriminate
-                      | destruct H3 as (_ & _ & H3); discriminate | ]).
-    + inversion Hs; subst; clear Hs; destruct ca; fin.
-    + unfold cnt in Hs; cbn in Hs.
-      destruct (Nat.ltb_spec i0 (count0 - 1)); inversion Hs; subst; clear Hs; destruct ca; fin.
-    + destruct ca; destruct tb as [t|]; try destruct prefer_done; inversion Hs; subst; clear Hs; fin.
-    + destruct ca; cbn in Hs; inversion Hs; subst; clear Hs; fin.
-    + destruct (Nat.ltb_spec (length q) cap0); inversion Hs; subst; clear Hs; destruct ca; fin.
-    + inversion Hs; subst; clear Hs; destruct ca; fin.
-    + inversion Hs; subst; clear Hs; destruct ca; fin.
-  - (* LTick *)
-    destruct ar; inversion Hs; subst; clear Hs. destruct ca; fin.
-  - (* LCancel *)
-    destruct ca; inversion Hs; subst; clear Hs.
-    destruct cpc0; destruct gpc0; fin.
-  - (* LRecv *)
-    destruct cpc0; try discriminate. destruct rc; try discriminate.
-    destruct q as [|v rest].
-    + destruct cl; inversion Hs; subst; clear Hs. destruct ca; fin.
-    + inversion Hs; subst; clear Hs. destruct ca; destruct gpc0; fin.
+  assert (Hp : post c (InvC c) (step c s l)).
+  { destruct l; [apply call_InvC | apply prod_InvC | apply tick_InvC | apply cancel_InvC | apply recv_InvC]; assumption. }
+  rewrite Hs in Hp. exact Hp.
 Qed.
+
+Lemma run_InvC c sched : wf c -> InvC c (run c init sched).
+Proof.
+  intros Hwf. apply (run_inv c (InvC c)); [|apply InvC_init].
+  intros s l s' o HI Hs. eapply step_InvC; eauto.
+Qed.
+
+Lemma reach_InvC c s : wf c -> reachable c s -> InvC c s.
+Proof. intros Hwf [sched ->]. apply run_InvC; assumption. Qed.
+
+(* ------------------------------------------------------------------------------------------------------------ *)
+(* the timestamp invariant (holds for every variant)                                                            *)
+(* ------------------------------------------------------------------------------------------------------------ *)
+Fixpoint nondec (l : list nat) : Prop :=
+  match l with [] => True | x :: r => Forall (fun y => x <= y) r /\ nondec r end.
+
+Lemma nondec_snoc l x : nondec l -> Forall (fun v => v <= x) l -> nondec (l ++ [x]).
+Proof.
+  induction l as [|a l IH]; cbn; intros Hn Hf.
+  - split; constructor.
+  - destruct Hn as [Ha Hn]. inversion Hf as [|? ? Hax Hf']; subst. split.
+    + apply Forall_app; split; [assumption | constructor; [assumption | constructor]].
+    + apply IH; assumption.
+Qed.
+
+Lemma nondec_app_l a b : nondec (a ++ b) -> nondec a.
+Proof.
+  induction a as [|x a IH]; cbn; [auto|]. intros [H1 H2]. split; [|auto].
+  apply Forall_app in H1. tauto.
+Qed.
+
+Lemma nondec_nth l : nondec l -> forall i j, i <= j -> j < length l -> nth i l 0 <= nth j l 0.
+Proof.
+  induction l as [|a l IH]; cbn; intros Hn i j Hij Hj; [lia|].
+  destruct Hn as [Ha Hn]. destruct i as [|i]; destruct j as [|j]; try lia.
+  - rewrite Forall_forall in Ha. apply Ha. apply nth_In. lia.
+  - apply IH; [assumption | lia | lia].
+Qed.
+
+Lemma nondec_nondecb l : nondec l -> nondecb l = true.
+Proof.
+  induction l as [|a l IH]; cbn; [auto|]. intros [Ha Hn]. destruct l as [|b l]; [reflexivity|].
+  inversion Ha; subst. apply andb_true_intro; split; [apply Nat.leb_le; assumption | apply IH; assumption].
+Qed.
+
+Lemma Forall_le_trans (l : list nat) a b : Forall (fun v => v <= a) l -> a <= b -> Forall (fun v => v <= b) l.
+Proof. intros H Hab. eapply Forall_impl; [|exact H]. cbn; intros; lia. Qed.
+
+Lemma Forall_le_snoc (l : list nat) x b : Forall (fun v => v <= b) l -> x <= b -> Forall (fun v => v <= b) (l ++ [x]).
+Proof. intros H Hx. apply Forall_app; split; [assumption | constructor; [assumption | constructor]]. Qed.
+
+Definition InvT (s : st) : Prop :=
+  nondec (sent s) /\
+  Forall (fun v => v <= now s) (sent s) /\
+  (match tickbuf s with Some t => t <= now s /\ Forall (fun v => v <= t) (sent s) | None => True end) /\
+  (match gpc s with
+   | GRecheck | GSend =>
+       tmp s <= now s /\ Forall (fun v => v <= tmp s) (sent s) /\
+       match tickbuf s with Some t => tmp s <= t | None => True end
+   | _ => True
+   end) /\
+  (match cpc s with CRet => True | _ => tickbuf s = None /\ armed s = false /\ gpc s = GNone end).
+
+Lemma InvT_init : InvT init.
+Proof. unfold InvT, init; cbn. repeat split; auto. Qed.
+
+Ltac finT :=
+  subst; cbv beta iota;
+  unfold InvT in *;
+  cbn [cpc gpc chanq closed cancelled i tmp tickbuf armed now sent recvd rclosed sac rac cap count
+       v_countdrop v_norecheck v_blocksend v_noclose1 andb negb
+       set_cpc set_gpc set_closed set_cancelled set_i set_armed set_rclosed do_tick take_tick do_send do_recv] in *;
+  repeat match goal with
+         | H : _ /\ _ |- _ => destruct H
+         end;
+  subst; cbv beta iota in *;
+  repeat match goal with
+         | H : _ /\ _ |- _ => destruct H
+         end;
+  repeat match goal with
+         | |- _ /\ _ => split
+         | |- True => exact I
+         end;
+  try first
+    [ assumption | reflexivity | lia | discriminate
+    | (apply nondec_snoc; assumption)
+    | (apply Forall_le_snoc; first [assumption | lia | (eapply Forall_le_trans; [eassumption | lia])])
+    | (eapply Forall_le_trans; [eassumption | lia]) ].
+
+Lemma step_InvT c s l s' o : InvT s -> step c s l = Some (s', o) -> InvT s'.
+Proof.
+  intros HI Hs.
+  assert (Hp : post c InvT (step c s l)); [|rewrite Hs in Hp; exact Hp]. clear Hs s' o.
+  destruct s as [cpc0 gpc0 q cl ca i0 tmp0 tb ar nw se re rc sa ra].
+  destruct l; stp.
+  - (* LCall *)
+    destruct cpc0; cbv beta iota; try exact I.
+    + destruct ca; finT.
+    + destruct (length q <? cap c); [|exact I]. finT.
+    + destruct (count c - 1 =? 0); [destruct (v_noclose1 c)|]; finT.
+  - (* LProd *)
+    destruct gpc0; cbv beta iota; try exact I.
+    + destruct cpc0; finT.
+    + destruct (i0 <? count c - 1); destruct cpc0; finT.
+    + destruct ca; destruct tb as [t|]; try destruct prefer_done; try exact I; destruct cpc0; finT.
+    + destruct (ca && negb (v_norecheck c)); destruct cpc0; destruct tb; finT.
+    + destruct (length q <? cap c); [|destruct (v_blocksend c); [exact I | destruct (v_countdrop c)]];
+        destruct cpc0; destruct tb; finT.
+    + destruct cpc0; finT.
+    + destruct cpc0; finT.
+  - (* LTick *)
+    destruct ar; [|exact I]. destruct cpc0; destruct tb; destruct gpc0; finT.
+  - (* LCancel *)
+    destruct ca; [exact I|]. finT.
+  - (* LRecv *)
+    destruct cpc0; try exact I. destruct rc; try exact I.
+    destruct q as [|v rest]; [destruct cl; [|exact I]|]; finT.
+Qed.
+
+Lemma run_InvT c sched : InvT (run c init sched).
+Proof.
+  apply (run_inv c InvT); [|apply InvT_init].
+  intros s l s' o HI Hs. eapply step_InvT; eauto.
+Qed.
+
+(* ------------------------------------------------------------------------------------------------------------ *)
+(* clauses of C20                                                                                               *)
+(* ------------------------------------------------------------------------------------------------------------ *)
+Ltac open_inv c s Hwf HI :=
+  destruct c as [cap0 count0 f1 f2 f3 f4];
+  unfold wf in Hwf; cbn [cap count v_countdrop v_norecheck v_blocksend v_noclose1] in Hwf;
+  destruct Hwf as (Hcap & Hcount & -> & -> & -> & ->);
+  destruct s as [cpc0 gpc0 q cl ca i0 tmp0 tb ar nw se re rc sa ra];
+  unfold InvC, cnt in HI; cbn [cpc gpc chanq closed cancelled i tmp tickbuf armed now sent recvd rclosed sac rac cap count] in HI;
+  destruct HI as (H1 & H2 & H3 & H4 & H5 & H6 & H7 & H8 & H9).
+
+(* never more than count values are sent, whatever the schedule; what was sent is what was received plus what is buffered *)
+Lemma sent_le_count c s : wf c -> InvC c s -> length (sent s) <= count c /\ sent s = recvd s ++ chanq s.
+Proof.
+  intros Hwf HI. split; [|apply HI].
+  open_inv c s Hwf HI. cbn [sent count].
+  destruct cpc0.
+  - destruct H3 as (-> & _). cbn; lia.
+  - destruct H3 as (-> & _). cbn; lia.
+  - lia.
+  - destruct gpc0; try lia. destruct H3 as [(-> & _) | (? & ?)]; cbn; lia.
+Qed.
+
+Lemma at_most_count c sched : wf c ->
+  let s := run c init sched in
+  length (sent s) <= count c /\ sent s = recvd s ++ chanq s /\ length (recvd s) <= count c.
+Proof.
+  intros Hwf s. destruct (sent_le_count c s Hwf (run_InvC c sched Hwf)) as [Ha Hb].
+  repeat split; try assumption. rewrite Hb, app_length in Ha. lia.
+Qed.
+
+Lemma buffer_le_cap c sched : wf c -> length (chanq (run c init sched)) <= cap c.
+Proof. intros Hwf. apply (run_InvC c sched Hwf). Qed.
+
+Lemma nondecreasing c sched :
+  let s := run c init sched in
+  nondec (sent s) /\
+  (wf c -> forall a b, a <= b -> b < length (recvd s) -> nth a (recvd s) 0 <= nth b (recvd s) 0).
+Proof.
+  intros s. pose proof (run_InvT c sched) as HT. split; [apply HT|].
+  intros Hwf. apply nondec_nth. apply nondec_app_l with (b := chanq s).
+  destruct (run_InvC c sched Hwf) as [Hsr _]. fold s in Hsr. rewrite <- Hsr. apply HT.
+Qed.
+
+(* the first receive never blocks: once LinearAttempt has returned and nothing has been received yet, either a value is
+   buffered, or the context was cancelled before the call and the channel is closed and empty *)
+Lemma first_available c s : wf c -> InvC c s -> cpc s = CRet -> recvd s = [] ->
+  (exists v rest, chanq s = v :: rest /\ sent s = v :: rest) \/
+  (chanq s = [] /\ sent s = [] /\ closed s = true /\ cancelled s = true /\ gpc s = GNone).
+Proof.
+  intros Hwf HI Hc Hr. open_inv c s Hwf HI. cbn in Hc, Hr |- *. subst cpc0 re. cbn in H1. subst se.
+  destruct gpc0; try (destruct q as [|v rest]; [cbn in H3; lia | left; eauto]).
+  destruct H3 as [(-> & ->) | (Hl & _)].
+  - right. repeat split; auto.
+  - destruct q as [|v rest]; [cbn in Hl; lia | left; eauto].
+Qed.
+
+(* the state in which LinearAttempt returns *)
+Lemma first_on_return c s s' o : wf c -> InvC c s -> cpc s <> CRet ->
+  step c s LCall = Some (s', o) -> cpc s' = CRet ->
+  (exists t, chanq s' = [t] /\ sent s' = [t] /\ recvd s' = []) \/
+  (cancelled s' = true /\ closed s' = true /\ chanq s' = [] /\ sent s' = [] /\ gpc s' = GNone).
+Proof.
+  intros Hwf HI Hn Hs Hr.
+  assert (HI' : InvC c s') by (eapply step_InvC; eauto).
+  revert Hs Hr. open_inv c s Hwf HI. unfold step, cnt. cbn [cpc gpc chanq closed cancelled count cap v_noclose1].
+  destruct cpc0; try congruence.
+  - destruct H3 as (-> & ->). destruct re; destruct q; try discriminate.
+    destruct ca; intros Hs Hr; inversion Hs; subst; clear Hs; cbn in *; try discriminate.
+    right. repeat split; auto.
+  - destruct (length q <? cap0); intros Hs Hr; inversion Hs; subst; cbn in *; discriminate.
+  - destruct H3 as (H3a & -> & ->). cbn in H1. subst se.
+    destruct q as [|t [|t2 q]]; cbn in H3a; try lia.
+    intros Hs Hr. left. exists t.
+    destruct (count0 - 1 =? 0); inversion Hs; subst; cbn; repeat split; auto.
+Qed.
+
+(* once the caller has returned without spawning a producer, nothing is ever sent or closed again *)
+Lemma no_producer_stable c s l s' o : cpc s = CRet -> gpc s = GNone -> step c s l = Some (s', o) ->
+  cpc s' = CRet /\ gpc s' = GNone /\ sent s' = sent s /\ closed s' = closed s.
+Proof.
+  intros Hc Hg. destruct s as [cpc0 gpc0 q cl ca i0 tmp0 tb ar nw se re rc sa ra]. cbn in Hc, Hg. subst.
+  destruct l; unfold step; cbn [cpc gpc chanq closed cancelled armed rclosed]; try discriminate.
+  - destruct ar; intros H; inversion H; subst; cbn; auto.
+  - destruct ca; intros H; inversion H; subst; cbn; auto.
+  - destruct rc; try discriminate. destruct q; [destruct cl; try discriminate|]; intros H; inversion H; subst; cbn; auto.
+Qed.
+
+Lemma no_producer_run c sched : forall s, cpc s = CRet -> gpc s = GNone ->
+  let s' := run c s sched in cpc s' = CRet /\ gpc s' = GNone /\ sent s' = sent s /\ closed s' = closed s.
+Proof.
+  induction sched as [|l r IH]; intros s Hc Hg; cbn; [auto|].
+  unfold step1. destruct (step c s l) as [[s1 o]|] eqn:E; [|apply IH; assumption].
+  destruct (no_producer_stable c s l s1 o Hc Hg E) as (A & B & C & D).
+  destruct (IH s1 A B) as (A' & B' & C' & D'). cbn in *. repeat split; congruence.
+Qed.
+
+(* the context was cancelled before LinearAttempt checked it: the channel is closed, nothing is ever sent on it, and no
+   goroutine is started — whatever happens before and afterwards *)
+Lemma precancelled c pre post_ : wf c ->
+  let s0 := run c init pre in
+  cpc s0 = CEntry -> cancelled s0 = true ->
+  let s := run c s0 (LCall :: post_) in
+  cpc s = CRet /\ closed s = true /\ sent s = [] /\ chanq s = [] /\ recvd s = [] /\ gpc s = GNone.
+Proof.
+  intros Hwf s0 Hc Hca s.
+  pose proof (run_InvC c pre Hwf) as HI0. fold s0 in HI0.
+  assert (Hs0 : sent s0 = [] /\ gpc s0 = GNone).
+  { destruct HI0 as (_ & _ & H3 & _). rewrite Hc in H3. exact H3. }
+  destruct Hs0 as (Hse & Hg).
+  assert (E : step c s0 LCall = Some (set_cpc (set_closed s0 true) CRet, ONone)).
+  { unfold step. rewrite Hc, Hca. reflexivity. }
+  assert (Hs : s = run c (set_cpc (set_closed s0 true) CRet) post_).
+  { subst s. cbn [run]. unfold step1. rewrite E. reflexivity. }
+  assert (HI : InvC c s).
+  { subst s s0. rewrite <- run_app. apply run_InvC; assumption. }
+  clearbody s.
+  pose proof (no_producer_run c post_ (set_cpc (set_closed s0 true) CRet) eq_refl Hg) as (A & B & C & D).
+  rewrite <- Hs in A, B, C, D. cbn in C, D.
+  destruct HI as (H1 & _).
+  rewrite C, Hse in H1. symmetry in H1. apply app_eq_nil in H1. destruct H1 as [Hr Hq].
+  repeat split; try assumption; congruence.
+Qed.
+
+(* closed only after the count-th value or after cancellation; closed iff the producer is gone *)
+Lemma closed_only_when_done c s : wf c -> InvC c s -> closed s = true ->
+  alive s = false /\ cpc s = CRet /\ (cancelled s = true \/ length (sent s) = count c).
+Proof.
+  intros Hwf HI Hcl. open_inv c s Hwf HI. unfold closed_spec in H6. cbn in Hcl, H6 |- *. subst cl.
+  destruct gpc0; try discriminate.
+  - destruct cpc0; try discriminate. repeat split; auto.
+    destruct H3 as [(_ & ->) | (-> & ->)]; auto.
+  - destruct cpc0.
+    + destruct H3 as (_ & ?); discriminate.
+    + destruct H3 as (_ & ?); discriminate.
+    + destruct H3 as (_ & _ & ?); discriminate.
+    + repeat split; auto. destruct H5 as [-> | ->]; [auto|right; lia].
+Qed.
+
+(* no step of the caller, the producer or the ticker is enabled *)
+Definition lib_quiet (c : cfg) (s : st) : Prop :=
+  step c s LCall = None /\ (forall pd, step c s (LProd pd) = None) /\ (forall d, step c s (LTick d) = None).
+
+Lemma lib_quietb_ok c s : lib_quietb c s = true -> lib_quiet c s.
+Proof.
+  unfold lib_quietb, lib_quiet. intros H.
+  apply andb_prop in H; destruct H as [H Ht]. apply andb_prop in H; destruct H as [H Hp0].
+  apply andb_prop in H; destruct H as [Hc Hp1].
+  repeat split.
+  - destruct (step c s LCall); [discriminate | reflexivity].
+  - intros [|]; [destruct (step c s (LProd true)) | destruct (step c s (LProd false))]; try discriminate; reflexivity.
+  - intros d. unfold step in *. destruct (armed s); [discriminate | reflexivity].
+Qed.
+
+(* every reachable state in which the library and the ticker can do nothing more: LinearAttempt has returned, the
+   producer has exited (or was never started), the ticker is stopped, the channel is closed, and either all count values
+   were sent or the context was cancelled *)
+Lemma terminal_closed c s : wf c -> InvC c s -> lib_quiet c s ->
+  cpc s = CRet /\ alive s = false /\ armed s = false /\ closed s = true /\
+  (length (sent s) = count c \/ cancelled s = true).
+Proof.
+  intros Hwf HI (Qc & Qp & Qt).
+  assert (Hclosed : closed s = true /\ cpc s = CRet /\ armed s = false).
+  { revert Qc Qp Qt. open_inv c s Hwf HI. unfold step, closed_spec, cnt in *.
+    cbn [cpc gpc chanq closed cancelled i tmp tickbuf armed now sent recvd rclosed sac rac cap count
+         v_countdrop v_norecheck v_blocksend v_noclose1 andb negb] in *.
+    intros Qc Qp Qt. specialize (Qt 0). destruct ar; [discriminate|].
+    destruct cpc0.
+    - destruct ca; discriminate.
+    - destruct H3 as (-> & ->). destruct re; destruct q; try discriminate.
+      cbn in Qc. destruct (Nat.ltb_spec 0 cap0); [discriminate | lia].
+    - destruct (count0 - 1 =? 0); discriminate.
+    - specialize (Qp true). destruct gpc0; try discriminate; auto. }
+  destruct Hclosed as (Hcl & Hc & Ha).
+  destruct (closed_only_when_done c s Hwf HI Hcl) as (A & B & C).
+  repeat split; auto. tauto.
+Qed.
+
+(* after the cancellation at most one more send happens, so at most cap + 1 = 2 more values can be received *)
+Lemma after_cancel c sched : wf c ->
+  let s := run c init sched in
+  sac s <= 1 /\ rac s <= cap c + 1 /\ (cancelled s = false -> sac s = 0 /\ rac s = 0).
+Proof.
+  intros Hwf s. pose proof (run_InvC c sched Hwf) as HI. fold s in HI.
+  destruct HI as (_ & _ & _ & _ & _ & _ & _ & _ & H9).
+  clearbody s. destruct (cancelled s).
+  - destruct H9 as [Ha Hb]. repeat split; try lia; intros; discriminate.
+  - destruct H9 as [Ha Hb]. repeat split; intros; lia.
+Qed.
+
+(* once the context is cancelled or the count-th value has been sent, the producer is never blocked and each of its steps
+   brings it strictly closer to its exit *)
+Definition finished (c : cfg) (s : st) : Prop := cancelled s = true \/ length (sent s) = count c.
+
+Lemma finished_progress c s : wf c -> InvC c s -> alive s = true -> finished c s ->
+  forall pd, exists s' o, step c s (LProd pd) = Some (s', o) /\ rank (gpc s') < rank (gpc s).
+Proof.
+  intros Hwf HI Hal Hf pd. revert Hal Hf. unfold finished, alive. open_inv c s Hwf HI.
+  unfold step, cnt.
+  cbn [cpc gpc chanq closed cancelled i tmp tickbuf armed now sent recvd rclosed sac rac cap count
+       v_countdrop v_norecheck v_blocksend v_noclose1 andb negb].
+  intros Hal Hf.
+  destruct cpc0;
+    [destruct H3 as (_ & ->); discriminate | destruct H3 as (_ & ->); discriminate
+    | destruct H3 as (_ & _ & ->); discriminate | ].
+  destruct gpc0; try discriminate.
+  - eexists; eexists; split; [reflexivity | cbn; lia].
+  - destruct (i0 <? count0 - 1); eexists; eexists; (split; [reflexivity | cbn; lia]).
+  - destruct Hf as [-> | Hf]; [|exfalso; lia].
+    destruct tb; [destruct pd|]; eexists; eexists; (split; [reflexivity | cbn; lia]).
+  - destruct Hf as [-> | Hf]; [|exfalso; lia].
+    cbn. eexists; eexists; (split; [reflexivity | cbn; lia]).
+  - destruct (length q <? cap0); eexists; eexists; (split; [reflexivity | cbn; lia]).
+  - eexists; eexists; split; [reflexivity | cbn; lia].
+  - eexists; eexists; split; [reflexivity | cbn; lia].
+Qed.
+
+Lemma finished_step c s l s' o : wf c -> InvC c s -> cpc s = CRet -> finished c s -> step c s l = Some (s', o) ->
+  finished c s' /\ cpc s' = CRet /\ ((forall pd, l <> LProd pd) -> gpc s' = gpc s).
+Proof.
+  intros Hwf HI Hc Hf. revert Hc Hf. unfold finished. open_inv c s Hwf HI.
+  cbn [cpc cancelled sent count]. intros -> Hf.
+  unfold step, cnt.
+  cbn [cpc gpc chanq closed cancelled i tmp tickbuf armed now sent recvd rclosed sac rac cap count
+       v_countdrop v_norecheck v_blocksend v_noclose1 andb negb].
+  destruct l.
+  - discriminate.
+  - destruct gpc0; try discriminate.
+    + intros E; inversion E; subst; cbn. repeat split; auto. intros X; exfalso; eapply X; reflexivity.
+    + destruct (i0 <? count0 - 1); intros E; inversion E; subst; cbn; (repeat split; auto);
+        intros X; exfalso; eapply X; reflexivity.
+    + destruct ca; destruct tb; try destruct prefer_done; intros E; inversion E; subst; cbn; (repeat split; auto);
+        intros X; exfalso; eapply X; reflexivity.
+    + destruct ca; cbn; intros E; inversion E; subst; cbn; (repeat split; auto);
+        intros X; exfalso; eapply X; reflexivity.
+    + destruct Hf as [-> | Hf]; [|exfalso; lia].
+      destruct (length q <? cap0); intros E; inversion E; subst; cbn; (repeat split; auto);
+        intros X; exfalso; eapply X; reflexivity.
+    + intros E; inversion E; subst; cbn. repeat split; auto. intros X; exfalso; eapply X; reflexivity.
+    + intros E; inversion E; subst; cbn. repeat split; auto. intros X; exfalso; eapply X; reflexivity.
+  - destruct ar; intros E; inversion E; subst; cbn; auto.
+  - destruct ca; intros E; inversion E; subst; cbn; auto.
+  - destruct rc; try discriminate. destruct q; [destruct cl; try discriminate|]; intros E; inversion E; subst; cbn; auto.
+Qed.
+
+(* ... hence it exits, and the channel is closed, within 6 of its own steps, whatever the other threads do meanwhile *)
+Lemma exits_within c : wf c -> forall more s, InvC c s -> cpc s = CRet -> finished c s ->
+  rank (gpc (run c s more)) <= rank (gpc s) - nprod more.
+Proof.
+  intros Hwf. induction more as [|l r IH]; intros s HI Hc Hf; cbn [run nprod]; [lia|].
+  unfold step1. destruct (step c s l) as [[s1 o]|] eqn:E.
+  - assert (HI1 : InvC c s1) by (eapply step_InvC; eauto).
+    destruct (finished_step c s l s1 o Hwf HI Hc Hf E) as (Hf1 & Hc1 & Hg).
+    specialize (IH s1 HI1 Hc1 Hf1).
+    destruct l; try (rewrite Hg in IH by (intros; discriminate); exact IH).
+    destruct (alive s) eqn:Hal.
+    + destruct (finished_progress c s Hwf HI Hal Hf prefer_done) as (s2 & o2 & E2 & Hr).
+      rewrite E in E2. inversion E2; subst. lia.
+    + unfold alive in Hal. unfold step in E. destruct (gpc s); discriminate.
+  - destruct l; try (apply IH; assumption).
+    specialize (IH s HI Hc Hf).
+    destruct (alive s) eqn:Hal.
+    + destruct (finished_progress c s Hwf HI Hal Hf prefer_done) as (s2 & o2 & E2 & Hr). congruence.
+    + unfold alive in Hal. destruct (gpc s); try discriminate; cbn in *; lia.
+Qed.
+
+Lemma finished_run c : wf c -> forall more s, InvC c s -> cpc s = CRet -> finished c s ->
+  cpc (run c s more) = CRet /\ finished c (run c s more).
+Proof.
+  intros Hwf. induction more as [|l r IH]; intros s HI Hc Hf; cbn; [auto|].
+  unfold step1. destruct (step c s l) as [[s1 o]|] eqn:E; [|apply IH; assumption].
+  destruct (finished_step c s l s1 o Hwf HI Hc Hf E) as (Hf1 & Hc1 & _).
+  apply IH; try assumption. eapply step_InvC; eauto.
+Qed.
+
+Lemma producer_exits c pre more : wf c ->
+  let s := run c init pre in
+  cpc s = CRet -> finished c s -> 6 <= nprod more ->
+  let s' := run c s more in alive s' = false /\ closed s' = true /\ armed s' = false.
+Proof.
+  intros Hwf s Hc Hf Hn s'.
+  pose proof (run_InvC c pre Hwf) as HI. fold s in HI.
+  pose proof (exits_within c Hwf more s HI Hc Hf) as Hr. fold s' in Hr.
+  assert (HI' : InvC c s') by (subst s' s; rewrite <- run_app; apply run_InvC; assumption).
+  assert (Hc' : cpc s' = CRet) by (apply (finished_run c Hwf more s HI Hc Hf)).
+  assert (Hrk : rank (gpc s') = 0).
+  { assert (rank (gpc s) <= 6) by (destruct (gpc s); cbn; lia). lia. }
+  clearbody s'. destruct HI' as (_ & _ & _ & _ & _ & H6 & H7 & _).
+  unfold alive. rewrite H6, H7. unfold closed_spec, armed_spec. rewrite Hc'.
+  destruct (gpc s'); cbn in Hrk; try lia; auto.
+Qed.
+
+(* ------------------------------------------------------------------------------------------------------------ *)
+(* the observation monitor evaluated by the harness is a consequence of the theorems                             *)
+(* ------------------------------------------------------------------------------------------------------------ *)
+Lemma obs_sound n sched : 1 <= n ->
+  let c := faithful n in
+  let s := run c init sched in
+  rclosed s = true -> obs_of_state c s = true.
+Proof.
+  intros Hn c s Hrc.
+  assert (Hwf : wf c) by (apply wf_faithful; assumption).
+  pose proof (run_InvC c sched Hwf) as HI. fold s in HI.
+  pose proof (run_InvT c sched) as HT. fold s in HT.
+  destruct (at_most_count c sched Hwf) as (A1 & A2 & A3). fold s in A1, A2, A3.
+  pose proof (buffer_le_cap c sched Hwf) as B. fold s in B.
+  destruct (after_cancel c sched Hwf) as (C1 & C2 & _). fold s in C1, C2.
+  assert (Hcl : closed s = true /\ chanq s = []) by (apply HI; assumption).
+  destruct Hcl as (Hcl & Hq).
+  destruct (closed_only_when_done c s Hwf HI Hcl) as (D1 & D2 & D3).
+  assert (Hsr : sent s = recvd s) by (rewrite A2, Hq, app_nil_r; reflexivity).
+  assert (Hnd : nondecb (recvd s) = true) by (apply nondec_nondecb; rewrite <- Hsr; apply HT).
+  clearbody s. unfold obs_of_state, obs_ok.
+  change (count c) with n in *. change (cap c) with impl_cap in *.
+  rewrite Hrc, Hnd, D1. cbn [negb andb].
+  repeat (apply andb_true_intro; split); try reflexivity.
+  - apply Nat.leb_le; assumption.
+  - apply Nat.leb_le; assumption.
+  - apply Nat.leb_le; assumption.
+  - rewrite Hsr. destruct (recvd s); reflexivity.
+  - destruct (cancelled s); [reflexivity|]. apply Nat.eqb_eq. rewrite <- Hsr. destruct D3; [discriminate | assumption].
+Qed.
+
+(* ------------------------------------------------------------------------------------------------------------ *)
+(* refutations: the same step function with one defect switched on                                               *)
+(* ------------------------------------------------------------------------------------------------------------ *)
+Definition variant (cp n : nat) (countdrop norecheck blocksend noclose1 : bool) : cfg :=
+  {| cap := cp; count := n; v_countdrop := countdrop; v_norecheck := norecheck; v_blocksend := blocksend;
+     v_noclose1 := noclose1 |}.
+
+Definition P := LProd true.
+Definition Pt := LProd false.
+Definition call3 := [LCall; LCall; LCall].
+
+(* i++ also on a dropped tick: with a receiver that is merely slow, the channel is closed after a single value although
+   count = 3 and the context was never cancelled *)
+Definition sched_countdrop : list label :=
+  call3 ++ [P; P; LTick 1; P; P; P; P; LTick 1; P; P; P; P; P; P].
+
+Lemma countdrop_refuted :
+  exists sched, let c := variant 1 3 true false false false in let s := run c init sched in
+    lib_quiet c s /\ closed s = true /\ cancelled s = false /\ length (sent s) = 1 /\ length (sent s) < count c.
+Proof.
+  exists sched_countdrop. cbv zeta. split; [apply lib_quietb_ok; vm_compute; reflexivity|].
+  vm_compute. repeat split; auto.
+Qed.
+
+(* no re-check of ctx.Err() after the tick: two ticks are forwarded after the cancellation and the receiver obtains
+   three values after it *)
+Definition sched_norecheck : list label :=
+  call3 ++ [P; P; LTick 1; P; LCancel; P; LRecv; P; P; LTick 1; Pt; P; LRecv; P; LRecv].
+
+Lemma norecheck_refuted :
+  exists sched, let c := variant 1 5 false true false false in let s := run c init sched in
+    sac s = 2 /\ rac s = 3.
+Proof. exists sched_norecheck. vm_compute. auto. Qed.
+
+(* a blocking send: with an absent receiver the producer is stuck in the send after the cancellation, and stays there
+   whatever the ticker and the canceller do *)
+Definition sched_blocksend : list label := call3 ++ [P; P; LTick 1; P; P; LCancel].
+
+Lemma blocksend_stuck c s : v_blocksend c = true -> cpc s = CRet -> gpc s = GSend -> cap c <= length (chanq s) ->
+  forall more, (forall l, In l more -> l <> LRecv) ->
+  let s' := run c s more in gpc s' = GSend /\ closed s' = closed s /\ chanq s' = chanq s.
+Proof.
+  intros Hb Hc Hg Hq more. revert s Hc Hg Hq. induction more as [|l r IH]; intros s Hc Hg Hq Hno; cbn; [auto|].
+  assert (Hl : l <> LRecv) by (apply Hno; left; reflexivity).
+  assert (Hr : forall l0, In l0 r -> l0 <> LRecv) by (intros l0 H0; apply Hno; right; assumption).
+  unfold step1.
+  assert (Hk : match step c s l with
+               | Some (s1, _) => cpc s1 = CRet /\ gpc s1 = GSend /\ closed s1 = closed s /\ chanq s1 = chanq s
+               | None => True end).
+  { destruct s as [cpc0 gpc0 q cl ca i0 tmp0 tb ar nw se re rc sa ra]. cbn in Hc, Hg, Hq. subst gpc0 cpc0.
+    destruct l; unfold step; cbn [cpc gpc chanq closed cancelled armed rclosed]; try congruence.
+    - exact I.
+    - destruct (Nat.ltb_spec (length q) (cap c)); [lia|]. rewrite Hb. exact I.
+    - destruct ar; cbn; auto.
+    - destruct ca; cbn; auto. }
+  destruct (step c s l) as [[s1 o]|]; [|apply IH; assumption].
+  destruct Hk as (Z & A & B & C). destruct (IH s1 Z A ltac:(rewrite C; assumption) Hr) as (A' & B' & C').
+  cbn in *. repeat split; congruence.
+Qed.
+
+Lemma blocksend_refuted :
+  exists sched, let c := variant 1 2 false false true false in let s := run c init sched in
+    cancelled s = true /\ alive s = true /\ (forall pd, step c s (LProd pd) = None) /\
+    forall more, (forall l, In l more -> l <> LRecv) -> alive (run c s more) = true /\ closed (run c s more) = false.
+Proof.
+  exists sched_blocksend. cbv zeta.
+  split; [vm_compute; reflexivity|]. split; [vm_compute; reflexivity|].
+  split; [intros [|]; vm_compute; reflexivity|].
+  intros more Hno.
+  destruct (blocksend_stuck (variant 1 2 false false true false)
+              (run (variant 1 2 false false true false) init sched_blocksend)
+              eq_refl ltac:(vm_compute; reflexivity) ltac:(vm_compute; reflexivity) ltac:(vm_compute; lia) more Hno)
+    as (A & B & _).
+  unfold alive. rewrite A, B. vm_compute. auto.
+Qed.
+
+(* close(c) missing on the count = 1 path: LinearAttempt has returned, nothing can move, and the channel is open *)
+Lemma noclose1_refuted :
+  exists sched, let c := variant 1 1 false false false true in let s := run c init sched in
+    lib_quiet c s /\ cpc s = CRet /\ closed s = false /\ length (sent s) = count c.
+Proof.
+  exists call3. cbv zeta. split; [apply lib_quietb_ok; vm_compute; reflexivity|]. vm_compute. auto.
+Qed.
+
+(* capacity 2 instead of 1: two values are buffered for a slow receiver *)
+Lemma cap2_refuted :
+  exists sched, let c := variant 2 3 false false false false in let s := run c init sched in
+    length (chanq s) = 2.
+Proof. exists (call3 ++ [P; P; LTick 1; P; P; P]). vm_compute. reflexivity. Qed.
+
+(* ------------------------------------------------------------------------------------------------------------ *)
+(* examples: the hypotheses are satisfiable and the interesting cases occur                                      *)
+(* ------------------------------------------------------------------------------------------------------------ *)
+(* a slow receiver, a dropped tick, then completion after exactly count = 3 values: closed, producer gone *)
+Definition sched_complete : list label :=
+  call3 ++ [P; P; LTick 1; P; P; P; P;          (* first tick: dropped, the buffer still holds the first value *)
+            LRecv; LTick 2; P; P; P; P;          (* second tick forwarded *)
+            LRecv; LTick 3; P; P; P; P; P; P;    (* third value forwarded: i = count-1, stop, close *)
+            LRecv; LRecv].
+
+Example ex_complete :
+  let c := faithful 3 in let s := run c init sched_complete in
+  recvd s = [0; 3; 6] /\ rclosed s = true /\ closed s = true /\ alive s = false /\ cancelled s = false /\
+  lib_quietb c s = true /\ obs_of_state c s = true.
+Proof. vm_compute. repeat split; reflexivity. Qed.
+
+(* cancellation while a tick is in flight (after the re-check, before the send): one send after the cancellation, and the
+   receiver obtains two values after it *)
+Definition sched_inflight : list label :=
+  call3 ++ [P; P; LTick 1; LRecv; P; P; LCancel; LTick 1; P; LRecv; P; Pt; P; P; P; LRecv].
+
+Example ex_inflight :
+  let c := faithful 5 in let s := run c init sched_inflight in
+  sac s = 1 /\ rac s = 1 /\ recvd s = [0; 1] /\ closed s = true /\ alive s = false /\ rclosed s = true.
+Proof. vm_compute. repeat split; reflexivity. Qed.
+
+Definition sched_two_after : list label :=
+  call3 ++ [P; P; LTick 1; P; P; LCancel; LRecv; P; LRecv; P; P; P; P; LRecv].
+
+Example ex_two_after :
+  let c := faithful 5 in let s := run c init sched_two_after in
+  sac s = 1 /\ rac s = 2 /\ recvd s = [0; 1] /\ rclosed s = true /\ obs_of_state c s = true.
+Proof. vm_compute. repeat split; reflexivity. Qed.
+
+(* already cancelled: closed and empty, no goroutine *)
+Example ex_precancelled :
+  let c := faithful 4 in let s := run c init (LCancel :: LCall :: [LTick 1; P; LRecv]) in
+  cpc s = CRet /\ closed s = true /\ sent s = [] /\ gpc s = GNone /\ rclosed s = true /\ obs_of_state c s = true.
+Proof. vm_compute. repeat split; reflexivity. Qed.
+
+(* count = 1: one value, closed on return *)
+Example ex_count1 :
+  let c := faithful 1 in let s := run c init call3 in
+  cpc s = CRet /\ closed s = true /\ chanq s = [0] /\ gpc s = GNone /\ lib_quietb c s = true.
+Proof. vm_compute. repeat split; reflexivity. Qed.
+
+(* an absent receiver and no cancellation: the library never becomes quiet (the ticker keeps firing, every tick is
+   dropped); after the cancellation the producer needs at most 6 steps *)
+Example ex_absent :
+  let c := faithful 3 in
+  let s := run c init (call3 ++ [P; P; LTick 1; P; P; P; P; LTick 1; P; P; P; P]) in
+  alive s = true /\ lib_quietb c s = false /\ length (chanq s) = 1 /\ i s = 0 /\
+  let s' := run c s [LCancel; P; P; P] in alive s' = false /\ closed s' = true /\ sent s' = [0].
+Proof. vm_compute. repeat split; reflexivity. Qed.
+
+(* the quiescent K1 view *)
+Example ex_krun :
+  snd (krun (faithful 3) init [KCall; KRecv; KRecv; KAwait; KRecv; KAwait; KRecv; KRecv]) =
+  [KRet 1; KVal; KEmpty; KAw 1 true; KVal; KAw 1 false; KVal; KClosed].
+Proof. vm_compute. reflexivity. Qed.
+
+Example ex_krun_cancel :
+  snd (krun (faithful 2) init [KCall; KRecv; KRecv; KCancel; KRecv]) = [KRet 1; KVal; KEmpty; KOk; KClosed] /\
+  snd (krun (faithful 2) init [KCancel; KCall; KRecv]) = [KOk; KRet 0; KClosed] /\
+  snd (krun (faithful 1) init [KCall; KRecv; KRecv]) = [KRet 1; KVal; KClosed].
+Proof. vm_compute. repeat split; reflexivity. Qed.
+
+(* ------------------------------------------------------------------------------------------------------------ *)
+(* the statements of Properties/C20.v, for the code as it is: c = faithful n, n >= 1                             *)
+(* ------------------------------------------------------------------------------------------------------------ *)
+Lemma f_first_on_return n sched s' o : 1 <= n ->
+  let c := faithful n in let s := run c init sched in
+  cpc s <> CRet -> step c s LCall = Some (s', o) -> cpc s' = CRet ->
+  (exists t, chanq s' = [t] /\ sent s' = [t] /\ recvd s' = []) \/
+  (cancelled s' = true /\ closed s' = true /\ chanq s' = [] /\ sent s' = [] /\ gpc s' = GNone).
+Proof.
+  intros Hn c s. apply first_on_return; [apply wf_faithful; assumption | apply run_InvC; apply wf_faithful; assumption].
+Qed.
+
+Lemma f_first_available n sched : 1 <= n ->
+  let c := faithful n in let s := run c init sched in
+  cpc s = CRet -> recvd s = [] ->
+  (exists v rest, chanq s = v :: rest /\ sent s = v :: rest) \/
+  (chanq s = [] /\ sent s = [] /\ closed s = true /\ cancelled s = true /\ gpc s = GNone).
+Proof.
+  intros Hn c s. apply first_available; [apply wf_faithful; assumption | apply run_InvC; apply wf_faithful; assumption].
+Qed.
+
+Lemma f_precancelled n pre post_ : 1 <= n ->
+  let c := faithful n in let s0 := run c init pre in
+  cpc s0 = CEntry -> cancelled s0 = true ->
+  let s := run c s0 (LCall :: post_) in
+  cpc s = CRet /\ closed s = true /\ sent s = [] /\ chanq s = [] /\ recvd s = [] /\ gpc s = GNone.
+Proof. intros Hn c. apply precancelled. apply wf_faithful; assumption. Qed.
+
+Lemma f_at_most_count n sched : 1 <= n ->
+  let s := run (faithful n) init sched in
+  length (sent s) <= n /\ sent s = recvd s ++ chanq s /\ length (recvd s) <= n.
+Proof. intros Hn. apply (at_most_count (faithful n) sched). apply wf_faithful; assumption. Qed.
+
+Lemma f_buffer_le_1 n sched : 1 <= n -> length (chanq (run (faithful n) init sched)) <= 1.
+Proof. intros Hn. apply (buffer_le_cap (faithful n) sched). apply wf_faithful; assumption. Qed.
+
+Lemma f_nondecreasing n sched : 1 <= n ->
+  let s := run (faithful n) init sched in
+  (forall a b, a <= b -> b < length (sent s) -> nth a (sent s) 0 <= nth b (sent s) 0) /\
+  (forall a b, a <= b -> b < length (recvd s) -> nth a (recvd s) 0 <= nth b (recvd s) 0).
+Proof.
+  intros Hn s. destruct (nondecreasing (faithful n) sched) as [A B]. split.
+  - apply nondec_nth. exact A.
+  - apply B. apply wf_faithful; assumption.
+Qed.
+
+Lemma f_terminal_closed n sched : 1 <= n ->
+  let c := faithful n in let s := run c init sched in
+  lib_quiet c s ->
+  cpc s = CRet /\ alive s = false /\ armed s = false /\ closed s = true /\ (length (sent s) = n \/ cancelled s = true).
+Proof.
+  intros Hn c s. apply terminal_closed; [apply wf_faithful; assumption | apply run_InvC; apply wf_faithful; assumption].
+Qed.
+
+Lemma f_closed_only_when_done n sched : 1 <= n ->
+  let s := run (faithful n) init sched in
+  closed s = true -> alive s = false /\ cpc s = CRet /\ (cancelled s = true \/ length (sent s) = n).
+Proof.
+  intros Hn s. apply (closed_only_when_done (faithful n));
+    [apply wf_faithful; assumption | apply run_InvC; apply wf_faithful; assumption].
+Qed.
+
+Lemma f_after_cancel n sched : 1 <= n ->
+  let s := run (faithful n) init sched in
+  sac s <= 1 /\ rac s <= 2 /\ (cancelled s = false -> sac s = 0 /\ rac s = 0).
+Proof. intros Hn. apply (after_cancel (faithful n) sched). apply wf_faithful; assumption. Qed.
+
+Lemma f_finished_progress n sched pd : 1 <= n ->
+  let c := faithful n in let s := run c init sched in
+  alive s = true -> (cancelled s = true \/ length (sent s) = n) ->
+  exists s' o, step c s (LProd pd) = Some (s', o) /\ rank (gpc s') < rank (gpc s).
+Proof.
+  intros Hn c s Hal Hf. apply finished_progress;
+    [apply wf_faithful; assumption | apply run_InvC; apply wf_faithful; assumption | assumption | exact Hf].
+Qed.
+
+Lemma f_producer_exits n pre more : 1 <= n ->
+  let c := faithful n in let s := run c init pre in
+  cpc s = CRet -> (cancelled s = true \/ length (sent s) = n) -> 6 <= nprod more ->
+  let s' := run c s more in alive s' = false /\ closed s' = true /\ armed s' = false.
+Proof. intros Hn c s Hc Hf. apply producer_exits; [apply wf_faithful; assumption | assumption | exact Hf]. Qed.
